@@ -447,10 +447,10 @@ var c11Queries = []string{`a`, `rate(a[1m])`, `sum by (l) (a)`, `sum(a)`, `avg(a
 func init() {
 	check.Register("C11/enum", func(c *check.Ctx) {
 		maxN := 12
-		procs := []int{2, 4, 6, 8, 16}
+		procs := []int{1, 2, 3, 4, 6, 8, 16}
 		if c.Thorough() {
 			maxN = 40
-			procs = []int{2, 4, 6, 8, 10, 12, 14, 16}
+			procs = []int{1, 2, 3, 4, 5, 6, 7, 8, 10, 12, 14, 16}
 		}
 		c.Rep.Bounds["enum:series_counts"] = fmt.Sprintf("0..%d", maxN)
 		c.Rep.Bounds["enum:gomaxprocs"] = procs
